@@ -160,6 +160,32 @@ def run_mixed_styles(chk, rng, n, stats):
     return run_texts(chk, texts, "mixed-styles", stats)
 
 
+def long_numerals(chk, stats):
+    """Integers of any magnitude: up to the interpreter's conversion limit (4300 digits) the value arrives exactly; beyond it the
+    template is refused as a template error (never accepted with another value)."""
+    from tempren.template.parser import TemplateParser
+    from tempren.template.exceptions import TemplateError
+    import impl
+    for digits, sign in [(4299, ""), (4300, "-"), (4300, ""), (4301, ""), (4301, "-"), (5001, "-"), (12000, "-"), (6000, "")]:
+        lit = sign + "".join(str((7 * k + 3) % 10 or 1) for k in range(digits))
+        text = "%T(" + lit + ", k=" + lit + ")"
+        try:
+            with impl.quiet_streams():
+                pat = TemplateParser().parse(text)
+            tag = pat.sub_elements[0]
+            got = ("acc", tag.args[0], tag.kwargs.get("k"))
+        except TemplateError:
+            got = ("rej",)
+        except Exception as e:      # noqa: BLE001
+            got = ("crash", type(e).__name__)
+        chk.count(("long-numeral", digits, sign))
+        stats["long_numerals"] = stats.get("long_numerals", 0) + 1
+        ok = (got == ("rej",)) if digits > 4300 else (got[0] == "acc" and got[1] == int(lit) and got[2] == int(lit))
+        if not ok:
+            chk.oracle_fail("an integer argument of %d digits (%s): %s" % (digits, "negative" if sign else "positive",
+                            "accepted with a different value" if got[0] == "acc" else str(got)), {"stream": "long-numerals", "digits": digits, "sign": sign})
+
+
 def run_shared_parser(chk, rng, texts, stats):
     """What a text means must not depend on which texts the same parser / compiler object has seen before (the command line
     parses the name, filter and sort templates with ONE compiler): a sample of texts — accepted ones, rejected ones and ones
@@ -223,7 +249,7 @@ def cli_names(chk, rng, n, stats):
     from sandbox import Sandbox
     name_chars = list("ab xyzAZ09_-.,;()=!#&+@[]^~'{}|{}|") + ["é", "漢", "\\"]
     for i in range(n):
-        kind = rng.randrange(4)
+        kind = rng.randrange(5)
         s = "".join(rng.choice(name_chars) for _ in range(rng.randrange(1, 10)))
         if s.endswith("\\") or s.strip(" .") == "":
             continue          # (blanks at either end of the name are text like any other)
@@ -240,6 +266,11 @@ def cli_names(chk, rng, n, stats):
             tree = [("raw", s), ("tag", None, "Strip", [("s", s)], [], [("raw", s + "x" + s)])]
             stripped = (s + "x" + s).strip(s)
             expect = s + stripped
+        elif kind == 4:
+            # named arguments whose VALUE is falsy (an empty string, 0, false) are values like any other
+            tree = [("raw", s), ("tag", None, "Strip", [], [("strip_characters", ("s", "")), ("left", ("b", False))], [("raw", " " + s + " ")]),
+                    ("tag", None, "Count", [], [("start", ("i", 0)), ("width", ("i", 0)), ("common", ("b", False))], None)]
+            expect = s + " " + s + " " + "0"
         else:
             # an EMPTY context is a context: the nesting written in the template is the nesting the tag sees
             tree = [("raw", s), ("tag", None, "Upper", [], [], []), ("tag", None, "Pad", [("i", 3), ("s", "0")], [("left", ("b", True))], [])]
@@ -351,6 +382,7 @@ def run(chk):
     bad = [insert_unrecognisable(rng, t) for t in base if t]
     add(run_texts(chk, bad, "unrecognisable-characters", stats))
     run_shared_parser(chk, rng, base[:500] + muts[:500] + bad[:500] + seqs[:300], stats)
+    long_numerals(chk, stats)
 
     # shapes the visitor must refuse (F17, F18): a piped tag with its own context, a repeated keyword
     shapes = []
